@@ -758,6 +758,10 @@ func tableLayout(context *layoutContext, table_ bo.TableBoxITF, bottomSpace pr.F
 		}
 		first := group.Children[0].Box()
 		last := group.Children[len(group.Children)-1].Box()
+		if table.Style.GetDirection() == "rtl" {
+			// column 0 is on the right: the group starts at its last column
+			first, last = last, first
+		}
 		group.PositionX = first.PositionX
 		group.PositionY = initialPositionY
 		group.Width = last.PositionX + last.Width.V() - first.PositionX
